@@ -1,5 +1,6 @@
 import DEvo.Sql.Schema
 import DEvo.Opt.Regroup
+import DEvo.Generated.Tables
 
 /-! # C01 — evolved database schema equals the schema of freshly created models
 
@@ -50,6 +51,38 @@ theorem C01_cex_rebuild_drops_unique_together :
 /-- F22: the CHECK of a `PositiveIntegerField` is not part of the rebuilt column definition -/
 theorem C01_cex_rebuild_drops_check :
     (fresh sqliteEnv posModel).checks = ["n>=0"] ∧ (rebuilt sqliteEnv posModel).checks = [] := by
+  decide
+
+/-- **foreign-key targets of a rebuilt table equal those of a fresh table** when the rebuild
+references `pk.column` -/
+theorem C01_fk_targets (e : Env) (lookup : String → Option ModelSig) (m : ModelSig) :
+    rebuiltFks "column" e lookup m = freshFks e lookup m := by
+  unfold rebuiltFks freshFks
+  congr 1
+
+/-- …and that is the attribute the source uses (regenerated from `build_column_schema` each run) -/
+theorem C01_fk_reference_is_pk_column : DEvo.Generated.fkReferenceAttr = "column" := by decide
+
+def pkColModel : ModelSig :=
+  { name := "Parent", table := "a_parent", pkColumn := "\"base_id\"",
+    fields := [⟨"base", "OneToOneField", [("primary_key", "true")], some "a.Root"⟩],
+    uniqueTogether := [], utApplied := true, indexTogether := [], indexes := [],
+    constraints := [], comment := "null", tablespace := "null" }
+
+def childModel : ModelSig :=
+  { name := "Child", table := "a_child", pkColumn := "\"id\"",
+    fields := [⟨"id", "AutoField", [("primary_key", "true")], none⟩,
+               ⟨"p", "ForeignKey", [], some "a.Parent"⟩],
+    uniqueTogether := [], utApplied := true, indexTogether := [], indexes := [],
+    constraints := [], comment := "null", tablespace := "null" }
+
+/-- F46 (repaired): referencing `pk.name` names a column that does not exist as soon as the primary
+key's column differs from its field name -/
+theorem C01_cex_fk_references_field_name :
+    freshFks sqliteEnv (fun n => if n == "a.Parent" then some pkColModel else none) childModel
+      = [⟨"p_id", "a_parent", "base_id"⟩] ∧
+    rebuiltFks "name" sqliteEnv (fun n => if n == "a.Parent" then some pkColModel else none) childModel
+      = [⟨"p_id", "a_parent", "base"⟩] := by
   decide
 
 /-- non-vacuity of `C01_partial_rebuild_plain` -/
